@@ -20,7 +20,8 @@ for pid in all_ids:
             "level_claimed": {
                 "category": "other",
                 "text": "Static analysis of the current source (typed SSA form): decides a named structural necessary condition of the property on "
-                        "every path of the anchored code and every call site in the workspace, not the run-time behaviour itself. " + p["Explanation"],
+                        "every path of the anchored code and every call site in the workspace, not the run-time behaviour itself. " + p["Explanation"]
+                        + " Rules decided by this check (%d): " % len(p["Rules"]) + " | ".join(p["Rules"]),
                 "design_ref": f"DESIGN.md section 3, {pid}",
             },
             "level_note": "Trusted: go/types + go/ssa (x/tools v0.29.0); controller-runtime client and Kubernetes API-server semantics; boxcutter owner "
